@@ -320,7 +320,9 @@ def run_plan(plan):
             r = Repo(server_path)
             mrng = random.Random(derive_seed(plan["seed"], "c05mut"))
             try:
+                from dulwich.file import FileLocked
                 for j, mop in enumerate(plan["mutator"]):
+                  try:
                     heads = sorted(n for n in r.refs.keys()
                                    if n.startswith(b"refs/heads/"))
                     if mop == "pack_refs":
@@ -362,6 +364,15 @@ def run_plan(plan):
                         if cands:
                             del r.refs[mrng.choice(cands)]
                     sim.stat("mutator:" + mop)
+                  except FileLocked:
+                    # someone else holds a lock this step needs: a legal
+                    # outcome for the second process, it just does not act
+                    sim.stat("mutator_locked_out")
+                  except OSError as e:
+                    # the second process is not the subject here: e.g. gc's
+                    # prune() stats a tmp_pack_* file that the transfer has
+                    # just renamed away and fails with FileNotFoundError
+                    sim.stat("mutator_failed:" + type(e).__name__)
             finally:
                 mut["done"] = True
                 r.close()
@@ -399,7 +410,16 @@ def run_plan(plan):
                 u.add_to_store(r.object_store,
                                [i for i in sorted(u.closure([tip]))
                                 if i not in present])
-                r.refs[name] = tip
+                from dulwich.file import FileLocked
+                for _attempt in range(2000):
+                    try:
+                        r.refs[name] = tip
+                        break
+                    except FileLocked:
+                        # the mutator holds this ref's lock right now
+                        sim.yield_point("harness-wait")
+                else:
+                    raise RuntimeError("harness: ref stayed locked")
                 srefs[name] = tip
             finally:
                 r.close()
@@ -455,10 +475,19 @@ def run_plan(plan):
                                 outcome["hostile"] = hidden[-1]
                                 return w + [hidden[-1]]
                         return w
+                    if os.environ.get("VERIF_DEBUG_TB"):
+                        print("DEBUG fetch depth", depth, "shallow before",
+                              sorted(r.get_shallow()))
                     res = client.fetch(path, r, determine_wants=wants,
                                        depth=depth)
                     outcome["result"] = res
                     outcome["shallow"] = set(r.get_shallow())
+                    if os.environ.get("VERIF_DEBUG_TB"):
+                        print("DEBUG wants", outcome.get("wants"),
+                              "shallow after", sorted(outcome["shallow"]),
+                              "new_shallow", getattr(res, "new_shallow", None),
+                              "new_unshallow",
+                              getattr(res, "new_unshallow", None))
                 finally:
                     if not isinstance(recv, MemoryRepo):
                         r.close()
@@ -648,6 +677,11 @@ def run_plan(plan):
                         asked += list((outcome.get("cloned_refs") or
                                        {}).values())
                     allowed = u.closure(asked)
+                    if mut["ref_changing"]:
+                        # the refs moved between requests of one operation:
+                        # what the client asked for in its POST may be newer
+                        # than what it recorded from an earlier advertisement
+                        allowed |= u.closure(list(ever_values))
                     if plan["include_tags"] or op == "clone":
                         # tags pointing into the fetched history may follow
                         for n, t in srefs.items():
